@@ -1,0 +1,23 @@
+//go:build verif
+
+// Machine-checked contracts (comment-only; compiled only under the build tag "verif").
+package context
+
+//@ track batchLabelSatisfied as labelOK
+//@ track (*BatchContext).IsBatchReady as isReady
+
+//@ define allowed(t, n) = ite(t == nil, 0, ite(scaledOk(t.Type, t.StrVal), scaled(t.Type, t.IntVal, t.StrVal, n, true), 0))
+
+//@ func allowedUnavailable
+//@ props C11
+//@ ensures result == allowed(threshold, replicas)
+//@ pure
+
+//@ func (*BatchContext).IsBatchReady
+//@ props C11 C07
+//@ requires bc != nil
+//@ ensures enough_updated: result == nil ==> bc.UpdatedReplicas >= bc.DesiredUpdatedReplicas
+//@ ensures within_threshold: result == nil ==> allowed(bc.FailureThreshold, bc.UpdatedReplicas) + bc.UpdatedReadyReplicas >= bc.DesiredUpdatedReplicas
+//@ ensures one_ready: result == nil && bc.DesiredUpdatedReplicas > 0 && bc.UpdatedReadyReplicas >= 0 ==> bc.UpdatedReadyReplicas > 0
+//@ ensures labelled: result == nil ==> #labelOK == 1 && #labelOK.ret0 && #labelOK.arg2 == bc.PlannedUpdatedReplicas && #labelOK.arg1 == bc.RolloutID
+//@ pure
